@@ -511,3 +511,68 @@ def rng_seed_values(ctx, seed):
         ctx.ensure("RNG.seed.setter:restarts-the-stream-of-that-value", bool(np.array_equal(r1.random.normal(size=5), d1)))
         r3 = RNG(int(s) + 1 if int(s) < 2 ** 32 - 1 else int(s) - 1)
         ctx.ensure("different-seed=>different-draws", not bool(np.array_equal(r3.random.normal(size=5), d1)))
+
+
+# --- fields on meshes (Field.mesh / generate_on_mesh, meshio): the value stored for a node / cell is the field value
+#     at that node / cell centroid, in the axis order the caller asked for -------------------------------------------
+def _mesh_fixture(mesh_dim):
+    import meshio
+    pts2 = np.array([[0.0, 0.0], [1.0, 0.0], [2.0, 0.3], [0.0, 1.0], [1.0, 1.2], [2.0, 1.0], [0.5, 2.0], [1.5, 2.2]])
+    pts = pts2 if mesh_dim == 2 else np.column_stack([pts2, np.array([0.0, 0.4, 0.1, 0.7, 0.2, 0.9, 0.3, 0.5])])
+    cells = [("triangle", np.array([[0, 1, 3], [1, 4, 3], [3, 4, 6]])), ("quad", np.array([[1, 2, 5, 4]])),
+             ("triangle", np.array([[4, 5, 7], [4, 7, 6]]))]           # blocks of unequal size
+    return meshio.Mesh(pts, cells)
+
+
+MESH_PARAMS = [{"gen": g, "points": p, "mesh_dim": md, "direction": d}
+               for g in ("RandMeth", "VectorField") for p in ("points", "centroids")
+               for (md, d) in ((2, "all"), (3, "xy"), (3, "zx"), (3, "yx"), (3, [2, 1]))]
+
+
+@contract(P, "Field.mesh[meshio]/stored-values=field-at-the-nodes-or-cell-centroids-in-the-requested-axis-order",
+          params=MESH_PARAMS,
+          functions=["field/tools.py:generate_on_mesh", "field/tools.py:_get_select", "field/base.py:Field.mesh"],
+          bounded="native run: 8 nodes, 3 cell blocks (3 triangles, 1 quad, 2 triangles), 2-D model on a 2-D or 3-D mesh")
+def field_on_mesh(ctx, gen, points, mesh_dim, direction):
+    """`mesh(mesh, points, direction, name)`: the field is generated at the mesh points or the cell centroids, the
+    coordinates taken in the order given by `direction` ('zx': first model axis = mesh z, second = mesh x); the data
+    stored in the mesh are those values node by node (vector fields: one row per node) / cell by cell (one array per
+    cell block, in block order).  Determinism makes the expectation computable: a second object with the same seed
+    evaluated at the explicit positions."""
+    with symrun.native():
+        def mk():
+            m = gs.Gaussian(dim=2, var=1.3, len_scale=1.1)
+            if gen == "VectorField":
+                return gs.SRF(m, generator="VectorField", mean_velocity=1.5, seed=7, mode_no=16)
+            return gs.SRF(m, seed=7, mode_no=16, mean=0.3)
+        mesh = _mesh_fixture(mesh_dim)
+        if isinstance(direction, str):
+            sel = {"all": [0, 1], "xy": [0, 1], "zx": [2, 0], "yx": [1, 0]}[direction]
+        else:
+            sel = list(direction)
+        srf = mk()
+        out = srf.mesh(mesh, points=points, direction=direction, name="fld")
+        ref_obj = mk()
+        if points == "points":
+            pos = mesh.points.T[sel]
+            want = np.array(ref_obj(pos), dtype=float)
+            got = np.array(mesh.point_data["fld"], dtype=float)
+            if gen == "VectorField":
+                ok = got.shape == (8, 2) and bool(np.allclose(got, want.T, rtol=1e-12, atol=1e-12))
+            else:
+                ok = got.shape == (8,) and bool(np.allclose(got, want, rtol=1e-12, atol=1e-12))
+        else:
+            ok = True
+            data = mesh.cell_data["fld"]
+            ok = len(data) == 3
+            for blk, arr_ in zip(mesh.cells, data):
+                cen = np.mean(mesh.points[blk.data], axis=1)            # (cells, mesh_dim)
+                want = np.array(mk()(cen.T[sel]), dtype=float)
+                a = np.array(arr_, dtype=float)
+                if gen == "VectorField":
+                    ok = ok and a.shape == (len(blk.data), 2) and bool(np.allclose(a, want.T, rtol=1e-12, atol=1e-12))
+                else:
+                    ok = ok and a.shape == (len(blk.data),) and bool(np.allclose(a, want, rtol=1e-12, atol=1e-12))
+        ret_ok = np.shape(out)[-1] == (8 if points == "points" else 6)
+    ctx.ensure("mesh-data=field-values-at-the-mesh-positions", ok)
+    ctx.ensure("returned-array-covers-all-positions", ret_ok)
